@@ -5,12 +5,14 @@ CURRENT source (extract/evaltables.py); Props/C03.lean proves over the extracted
 run-time evaluator route every functor/arity to the same arithmetic_ops function, and lifts that to both evaluator
 models.
 
-Behavioural part: every generated expression is evaluated in 9 contexts and all canonical outcomes (value, or the
+Behavioural part: every generated expression is evaluated in up to 10 contexts and all canonical outcomes (value, or the
 formal term of the error) must coincide — this cross-context equality is the property's own oracle:
   c1   literal in the body of a consulted clause            c1q  literal in the (compiled) query
   c2   built at run time, passed to is/2 in a variable      c3   both sides of =:= / < / =< (literal and run-time)
   c4   inside findall/3                                     c5   body of an assertz'ed clause
   c6   call(is, X, E)      c6g  G = (X is E), call(G)       c7   compiled top functor over run-time sub-terms
+  c8   compiled top functor over ALIASED clause variables (operand registers hold references)
+(c1, c3, c7, c8 are consulted clauses: a top-level query is evaluated by the run-time evaluator.)
 The functor list comes from the extracted table, so a functor added to the source is exercised automatically.
 The model side (drv_C03) predicts, from the extracted tables, which functor/arity is reported as not evaluable, and
 gives the exact integer value (C01's model) for integer-only expressions.
@@ -299,23 +301,40 @@ def make_case(i, e, clause_ok):
     # +0.0 is made the first float zero this machine stores (see notes/findings/C02-2.md: the float table
     # identifies the two zeros, whichever comes first wins for the life of the machine)
     impl = ["Q\t%s_z\t1\tZ = 0.0." % cid]
+    top_app = e[0] == "app"
     if clause_ok:
-        impl.append("L\t%s_l\tuser\t%s" % (cid, hesc("c1_%s(X) :- X is %s.\n" % (cid, E))))
+        # compiled contexts live in consulted clauses (a top-level query is evaluated by the run-time evaluator)
+        prog = "c1_%s(X) :- X is %s.\n" % (cid, E)
+        prog += "c3a_%s(X) :- %s =:= X.\nc3b_%s(X) :- %s < X.\nc3c_%s(T, X) :- T =< X.\n" % (cid, E, cid, E, cid)
+        if top_app:
+            vs = ["A", "B"][:len(e[2])]
+            vs0 = ["A0", "B0"][:len(e[2])]
+            prog += "c7_%s(X, %s) :- X is %s(%s).\n" % (cid, ", ".join(vs), qatom(e[1]), ",".join(vs))
+            # aliased clause variables: the operand registers hold references that must be dereferenced
+            prog += "c8_%s(X) :- %s, %s, X is %s(%s).\n" % (
+                cid, ", ".join("%s = %s" % (a, b) for a, b in zip(vs0, vs)),
+                ", ".join("%s = %s" % (v, pl(a)) for v, a in zip(vs, e[2])), qatom(e[1]), ",".join(vs0))
+        impl.append("L\t%s_l\tuser\t%s" % (cid, hesc(prog)))
         qs.append(("c1", "catch(c1_%s(X), error(Err,_), true)." % cid))
+        qs.append(("c3", "T = %s, catch(X is T, error(Err,_), X = none), "
+                   "catch((c3a_%s(X) -> R1 = eq ; R1 = ne), error(E1,_), R1 = err), "
+                   "catch((c3b_%s(X) -> R2 = lt ; R2 = ge), error(E2,_), R2 = err), "
+                   "catch((c3c_%s(T, X) -> R3 = le ; R3 = gt), error(E3,_), R3 = err)." % (E, cid, cid, cid)))
+        if top_app:
+            qs.append(("c7", "%s, catch(c7_%s(X, %s), error(Err,_), true)." % (
+                ", ".join("%s = %s" % (v, pl(a)) for v, a in zip(vs, e[2])), cid, ",".join(vs))))
+            qs.append(("c8", "catch(c8_%s(X), error(Err,_), true)." % cid))
+    else:
+        qs.append(("c3", "T = %s, catch(X is T, error(Err,_), X = none), "
+                   "catch((%s =:= X -> R1 = eq ; R1 = ne), error(E1,_), R1 = err), "
+                   "catch((%s < X -> R2 = lt ; R2 = ge), error(E2,_), R2 = err), "
+                   "catch((T =< X -> R3 = le ; R3 = gt), error(E3,_), R3 = err)." % (E, E, E)))
     qs.append(("c1q", "catch(X is %s, error(Err,_), true)." % E))
     qs.append(("c2", "T = %s, catch(X is T, error(Err,_), true)." % E))
-    qs.append(("c3", "T = %s, catch(X is T, error(Err,_), X = none), "
-               "catch((%s =:= X -> R1 = eq ; R1 = ne), error(E1,_), R1 = err), "
-               "catch((%s < X -> R2 = lt ; R2 = ge), error(E2,_), R2 = err), "
-               "catch((T =< X -> R3 = le ; R3 = gt), error(E3,_), R3 = err)." % (E, E, E)))
     qs.append(("c4", "findall(o(X,Err), catch(X is %s, error(Err,_), true), [o(X,Err)])." % E))
     qs.append(("c5", "catch((assertz((c5_%s(X) :- X is %s)), c5_%s(X)), error(Err,_), true)." % (cid, E, cid)))
     qs.append(("c6", "catch(call(is, X, %s), error(Err,_), true)." % E))
     qs.append(("c6g", "G = (X is %s), catch(call(G), error(Err,_), true)." % E))
-    if e[0] == "app":
-        vs = ["A", "B"][:len(e[2])]
-        qs.append(("c7", "%s, catch(X is %s(%s), error(Err,_), true)." % (
-            ", ".join("%s = %s" % (v, pl(a)) for v, a in zip(vs, e[2])), qatom(e[1]), ",".join(vs))))
     for name, q in qs:
         impl.append("Q\t%s_%s\t2\t%s" % (cid, name, hesc(q)))
     model = ["ev\t%s\t%s" % (cid, tok(e))]
